@@ -36,7 +36,7 @@ macro_rules! viol {
 pub fn info() -> CheckInfo {
     CheckInfo {
         id: "C16",
-        rule: "random x86-64-style programs (1..5 functions, 1..7 blocks each; branches, conditional branches, indirect jumps, returns, dead ends, extern/internal/indirect calls with and without return site, calls as second jump after a conditional branch, several calls per function, functions without calls, equal function names, functions named like dangerous symbols, two terms at one address) with a random import table (names from the shipped lists of CWE676/CWE426/CWE332 + ioctl/system + near-miss decoys such as strcpy_s, system2, _ioctl, srandom) are normalized (basic; basic+optimize in half of the cases) and given, with random configurations (subsets of shipped lists, decoys, duplicates, empty lists, extra keys), to CWE676/CWE782/CWE426/CWE332 via CWE_MODULE.run; the warning multisets (check name, addresses, tids, symbols, `other`; for CWE332 the configured pair named in the message) are compared with a direct scan of the program. non-trivial = at least one warning is expected and the program contains at least one call that must not be reported by any of the four checks; distinct = hash of (program, configurations)",
+        rule: "random x86-64-style programs (1..5 functions, 1..7 blocks each; branches, conditional branches, indirect jumps, returns, dead ends, extern/internal/indirect calls with and without return site, calls as second jump after a conditional branch, several calls per function, functions without calls, equal function names, functions named like dangerous symbols, two terms at one address) with a random import table (names from the shipped lists of CWE676/CWE426/CWE332 + ioctl/system + near-miss decoys such as strcpy_s, system2, _ioctl, srandom) are normalized (basic; basic+optimize in half of the cases) and given, with random configurations (subsets of shipped lists, decoys, duplicates, empty lists, extra keys; the CWE782 section null, empty, with an empty or with a random `symbols` list), to CWE676/CWE782/CWE426/CWE332 via CWE_MODULE.run; the warning multisets (check name, addresses, tids, symbols, `other`; for CWE332 the configured pair named in the message) are compared with a direct scan of the program. non-trivial = at least one warning is expected and the program contains at least one call that must not be reported by any of the four checks; distinct = hash of (program, configurations)",
         assumptions: &[
             "names in the import table are unique and every extern symbol is stored under its own tid (as the extractor emits them); programs with duplicated import names are driven too but a divergence there is only counted as an observation",
             "the program judged is the normalized one the check modules receive (normalize_basic, plus normalize_optimize in half of the cases), as in the CLI pipeline",
@@ -276,7 +276,17 @@ pub fn gen_case(rng: &mut Rng) -> Case {
     c332.retain(|(a, b)| !a.is_empty() && !b.is_empty());
     let configs = json!({
         "CWE676": {"_comment": "generated", "symbols": c676},
-        "CWE782": if rng.bool() { json!({"symbols": []}) } else { Value::Null },
+        // the ioctl check takes no list: whatever its section says (the shipped one has an empty `symbols` key), it reports
+        // the calls to ioctl and nothing else
+        "CWE782": match rng.below(4) {
+            0 => Value::Null,
+            1 => json!({"symbols": []}),
+            2 => json!({}),
+            _ => {
+                let (a, b) = (rng.range_usize(0, 3), rng.range_usize(0, 4));
+                json!({"symbols": pick_names(rng, &names, &pool, a, b)})
+            }
+        },
         "CWE426": {"symbols": c426, "_comment": "generated"},
         "CWE332": {"pairs": c332},
     });
